@@ -6,16 +6,20 @@ import re
 
 from . import C02
 from .lib import decision, paths
+from .lib.mir import AnchorLost
 
 CONFIGS_QUICK = ["A"]
 CONFIGS_THOROUGH = ["A", "R", "ASYNCSTD", "SMOL", "NIO", "GLOMMIO"]
-TECHNIQUE = "def-use of the read count in the built MIR of Request::read (USED-RESULT)"
-LEVEL_TEXT = ("Decides two clauses. C06-b: every value Request::read_payload returns is sized by its `size` parameter (the Content-Length), in each of its three "
-              "cases -- body complete in the head's segment, body partly there, body not there -- so bytes behind the announced length (a coalesced next "
-              "request) are never attributed to this request's body. C06-a: in Request::read the Ok(n) payload of stream.read(&mut buf) flows into the extent of what is parsed "
-              "(not only into the `== 0` test), and read_payload does not decide 'nothing received' from the value of a buffer byte. This is a necessary "
-              "condition of segmentation independence for arbitrary byte content (without n a received 0 byte is indistinguishable from padding). "
-              "Decides these clauses only: heads split over several reads and several requests coalesced in one read are not decided.")
+TECHNIQUE = ('def-use of the read count in the built MIR of Request::read (USED-RESULT); extent pairing of read_payload; loop membership of the stream read and '
+             'provenance of the parse extent (MUSTPASS)')
+LEVEL_TEXT = ('Decides four clauses. C06-b: every value Request::read_payload returns is sized by its `size` parameter (the Content-Length), in each of its three '
+              "cases -- body complete in the head's segment, body partly there, body not there -- so bytes behind the announced length (a coalesced next request) are"
+              " never attributed to this request's body. C06-a: in Request::read the count of received bytes flows into the extent of what is parsed (not only into "
+              "the `== 0` test), and read_payload does not decide 'nothing received' from the value of a buffer byte. C06-c: the stream read that fills the head "
+              'buffer is repeated (it sits in a loop) until the head is complete, so a head that arrives in several segments is parsed like the unsplit one. C06-d: '
+              'the extent of what a parse covers is initialised from state kept across requests -- a necessary condition for serving a second request that arrived in'
+              ' the same segment as the first (known finding on the pinned tree: it starts from 0, the coalesced request is dropped). These are necessary conditions '
+              'of segmentation independence; the behaviour for all segmentations is not decided.')
 
 
 def run(ck, progs):
@@ -25,6 +29,7 @@ def run(ck, progs):
         ck.config = cfg
         ck.guard("C06-a USED-RESULT", lambda: c06a(ck, prog))
         ck.guard("C06-b PAIR payload extent", lambda: c06b(ck, prog))
+        ck.guard("C06-c MUSTPASS head complete", lambda: c06c(ck, prog))
     ck.config = None
 
 
@@ -106,3 +111,58 @@ def c06b(ck, prog):
               "" if ok else "read_payload returns a payload built as %s: its extent is not the announced length, so whatever else arrived in the same segment (the next pipelined request, a trailing CRLF) becomes part of this request's body" % how,
               how="payload = %s" % how)
     ck.floor(R, "payload cases", n, 3)
+
+
+STREAM_READ = r"(AsyncReadExt|ReadExt|AsyncRead)::read$|io::(read::)?ReadExt::read$"
+
+
+def c06c(ck, prog):
+    """Two necessary conditions of `any split ... and any coalescing ... yields the same parsed requests`:
+    (c) the head may arrive in several reads, so the read that fills the head buffer is repeated until the head is complete
+        (it sits in a loop other than the poll loop of its own await);
+    (d) a read may carry the start of the next request, so parsing a request must be possible without a fresh read of the
+        stream (bytes left over from the previous read are parsed first) or the read must append behind kept bytes."""
+    from .lib.bound import natural_loops
+    f = prog.one(r"^ohkami::request::Request::read::\{closure#0\}$")
+    reads = [c for c in f.calls() if re.search(STREAM_READ, c.callee or "") or re.search(STREAM_READ, c.decl or "")]
+    if len(reads) != 1:
+        raise AnchorLost("expected one stream read in Request::read, found %d" % len(reads))
+    rd = reads[0]
+    loops = natural_loops(f)
+    parse = [c for c in f.calls() if re.search(r"request::method::Method::from_bytes$", c.callee or "")]
+    if not parse:
+        raise AnchorLost("Method::from_bytes not called in Request::read")
+    # the await of the read future is a loop around poll(); a loop that repeats the read contains the call that creates the future
+    around = [h for h, body in loops.items() if rd.bb in body]
+    ok = bool(around)
+    ck.ob("C06-c MUSTPASS head complete", "read:repeated-until-head-complete", ok, f.loc(rd.sp),
+          "" if ok else "Request::read fills its buffer with a single stream.read(..) and parses whatever that one call returned: a request head that arrives in two segments "
+          "(`GET /a HT` + `TP/1.1\\r\\n..`) is answered 505/400 instead of being parsed like the unsplit head",
+          how="the stream read sits in a loop (header bb%s) that ends when the head is complete" % (around[0] if around else "-"))
+    # (d) the number of valid bytes at the start of a parse comes from state kept across requests, not from 0
+    ext = [c for c in f.calls() if c.name in ("index", "get_unchecked", "get") and len(c.args) > 1 and "__buf__" in decision.describe_deep(f, c.args[0], 4)
+           and f.dominates(c.bb, parse[0].bb)]
+    kept = False
+    what = "?"
+    for c in ext:
+        st = f.origin(c.args[1])
+        if not (st and st[-1][0] == "agg"):
+            continue
+        for o in st[-1][1][2]:
+            os_ = f.origin(o)
+            if os_ and os_[-1][0] == "multi" and not os_[-1][2]:
+                what = decision.describe_deep(f, o, 2)
+                for (dbb, si, dk, payload) in f.defs().get(os_[-1][1], []):
+                    if f.is_cleanup(dbb) or dk != "assign":
+                        continue
+                    r = payload["r"]
+                    d = decision.describe_deep(f, r[1], 4) if r[0] == "use" and r[1][0] != "k" else ""
+                    if re.search(r"arg1\.\^?self\.(?!__buf__)", d) and "poll(" not in d:
+                        kept = True
+            elif os_ and os_[-1][0] == "arg":
+                kept = True
+    ok = kept
+    ck.ob("C06-d MUSTPASS carry-over", "parse-extent-from-kept-state", ok, f.loc(rd.sp),
+          "" if ok else "the extent of what Request::read parses (`%s`) starts from 0 on every request and the session clears the buffer before each read: bytes of a following request "
+          "that arrived in the same segment are dropped, so of two requests sent in one segment only the first is ever answered" % what,
+          how="the parse extent is initialised from state kept across requests")
